@@ -713,6 +713,118 @@ fn gates_part(rep: &mut Report, opts: &Opts) {
     rep.extra.insert("probe_sites_hit_and_delayed".into(), crate::rec::coverage_json());
 }
 
+/// Connections added through a harness-held clone *while* the model that owns
+/// the sibling clone is sending (a second thread connects, the main thread
+/// steps). `done` is bumped (Release) after each `connect` has returned and
+/// read (Acquire) before each send is triggered; `started` is bumped before
+/// each `connect` begins and read after the send's driver call has returned.
+/// Oracle: connection i < done-before must receive the event exactly once
+/// ("a connection added through any clone is used by every clone's subsequent
+/// sends"); connection i >= started-after must not receive it; the ones in
+/// between at most once; queries likewise return one reply per connection of
+/// a prefix of the list, in connection order. Sound: only the Release/Acquire
+/// pairs order a connect before a send, stamps are not used.
+fn concurrent_connect_case(seed: u64, threads: usize) -> Result<(u64, u64), String> {
+    use std::sync::atomic::{AtomicUsize, Ordering};
+    let mut rng = Rng::new(seed);
+    rec::reset(&ExecCfg::default());
+    let miri = cfg!(miri);
+    let ndst = if miri { 4 } else { rng.range(4, 12) as usize };
+    let log = Arc::new(Mutex::new(Vec::new()));
+    let out0: Output<u64> = Output::default();
+    let req0: Requestor<u64, u64> = Requestor::default();
+    let mut out_h = out0.clone();
+    let mut req_h = req0.clone();
+    let src = Src { out: out0, req: req0 };
+    let src_mbox = Mailbox::new();
+    let src_addr = src_mbox.address();
+    let mut init = SimInit::with_num_threads(threads).add_model(src, src_mbox, "src");
+    let mut addrs: Vec<Address<Dst>> = Vec::new();
+    for i in 0..ndst {
+        let mb = Mailbox::with_capacity(*rng.pick(&[1usize, 2, 8]));
+        addrs.push(mb.address());
+        init = init.add_model(Dst { id: i as u64, log: log.clone() }, mb, format!("dst{}", i));
+    }
+    let mut simu = match init.init(MonotonicTime::EPOCH) {
+        Ok((s, _)) => s,
+        Err(e) => return Err(format!("init failed: {:?}", e)),
+    };
+    let started = Arc::new(AtomicUsize::new(0));
+    let done = Arc::new(AtomicUsize::new(0));
+    let (started2, done2) = (started.clone(), done.clone());
+    let addrs2 = addrs.clone();
+    let spin = rng.range(0, 2000);
+    let connector = std::thread::spawn(move || {
+        // Connection i targets dst i, on both ports.
+        for (i, a) in addrs2.iter().enumerate() {
+            started2.store(i + 1, Ordering::Release);
+            out_h.connect(Dst::recv, a);
+            req_h.connect(Dst::reply, a);
+            done2.store(i + 1, Ordering::Release);
+            for _ in 0..spin {
+                std::hint::spin_loop();
+            }
+            std::thread::yield_now();
+        }
+        (out_h, req_h)
+    });
+    let mut sends = 0u64;
+    let mut overlapped = 0u64;
+    let mut x = 1000u64;
+    loop {
+        let finished = done.load(Ordering::Acquire) == ndst;
+        // Event.
+        x += 1;
+        let d0 = done.load(Ordering::Acquire);
+        log.lock().unwrap().clear();
+        if let Err(e) = simu.process_event(Src::fire, x, &src_addr) {
+            return Err(format!("process_event failed: {:?}", e));
+        }
+        let s1 = started.load(Ordering::Acquire);
+        let got: Vec<(u64, u64)> = log.lock().unwrap().clone();
+        for i in 0..ndst {
+            let n = got.iter().filter(|g| g.0 == i as u64 && g.1 == x).count();
+            if i < d0 && n != 1 {
+                return Err(format!("event {} reached dst{} {} times although the connection to it had been completed through another clone before the send was triggered ({} connections completed before, {} started after)", x, i, n, d0, s1));
+            }
+            if i >= s1 && n != 0 {
+                return Err(format!("event {} reached dst{} although its connection had not been started when the send returned", x, i));
+            }
+            if n > 1 {
+                return Err(format!("event {} reached dst{} {} times", x, i, n));
+            }
+        }
+        if s1 > d0 {
+            overlapped += 1;
+        }
+        // Query.
+        x += 1;
+        let d0 = done.load(Ordering::Acquire);
+        match simu.process_query(Src::ask, x, &src_addr) {
+            Err(e) => return Err(format!("process_query failed: {:?}", e)),
+            Ok(r) => {
+                let s1 = started.load(Ordering::Acquire);
+                let exp_prefix: Vec<u64> = (0..r.len()).map(|i| x * 1000 + i as u64).collect();
+                if r != exp_prefix {
+                    return Err(format!("query {} returned {:?}: not one reply per connection of a prefix of the connection list, in connection order", x, r));
+                }
+                if r.len() < d0 || r.len() > s1 {
+                    return Err(format!("query {} returned {} replies although {} connections had been completed before it was triggered and {} started when it returned", x, r.len(), d0, s1));
+                }
+                if s1 > d0 {
+                    overlapped += 1;
+                }
+            }
+        }
+        sends += 2;
+        if finished {
+            break;
+        }
+    }
+    let _ = connector.join();
+    Ok((sends, overlapped))
+}
+
 pub fn run(opts: &Opts) -> Report {
     let mut rep = Report::new("C14");
     let want = |p: &str| opts.part.as_deref().map_or(true, |x| x == p);
@@ -753,6 +865,20 @@ pub fn run(opts: &Opts) -> Report {
                     }
                 }
                 Err(e) => rep.violation("C14/clone-connection-list-not-shared", format!("[clones threads={}] {}\nops: {:?}", threads, e, ops), opts.replay_args("clones", case)),
+            }
+            // Connections made by a second thread while the model is sending.
+            if case % 2 == 0 {
+                rep.evaluations += 1;
+                match concurrent_connect_case(h2(seed, 0xCC), if cfg!(miri) { 2 } else { [1usize, 2, 4, 8][(case / 2 % 4) as usize] }) {
+                    Ok((sends, overlapped)) => {
+                        rep.count("sends_and_queries_during_concurrent_connects", sends);
+                        rep.count("sends_overlapping_a_connect_in_progress", overlapped);
+                        if overlapped > 0 {
+                            rep.distinct.insert(h2(seed, 0xCC));
+                        }
+                    }
+                    Err(e) => rep.violation("C14/clone-connection-list-not-shared", format!("[clones, concurrent connect] {}", e), opts.replay_args("clones", case)),
+                }
             }
             if rep.samples.len() < rep.max_samples.min(8) && case < 2 {
                 rep.samples.push(Json::obj().with("part", "clones").with("threads", threads).with("ops", format!("{:?}", ops)));
